@@ -190,8 +190,9 @@ def run_case(case):
     for p, interior in _positions(tshape, case["family"]):
         X = p + rel  # expected sampling coordinate of every output voxel
         inb = np.all((X >= margin - 1e-9) & (X <= nvec - 1 - margin + 1e-9), axis=-1)
-        lo = X.reshape(-1, 3).min(0)
-        hi = X.reshape(-1, 3).max(0)
+        # (the guaranteed region only: without corner_safe the corners of a rotated non-cubic box may fall outside the crop window)
+        lo = X[scope].reshape(-1, 3).min(0)
+        hi = X[scope].reshape(-1, 3).max(0)
         dist_out = np.maximum(np.maximum(-hi, lo - (nvec - 1)), 0).max()  # how far the sample box lies outside (0 = overlaps)
         where = "interior" if interior else ("outside" if dist_out > 0 else "straddling")
         loaded = []
